@@ -315,7 +315,9 @@ fn build_request(s: &Setup, r: &Value) -> Built {
         _ => ("echo_s".into(), vec![("s", sv.clone())], sv.clone()),
       };
       if pbool(r, "tck") {
-        let input: Value = raw_tck.unwrap_or_else(|| Value::Array(inputs.iter().map(|(k, v)| json!({"name": k, "value": v.to_tck()})).collect()));
+        let mut input: Value = raw_tck.unwrap_or_else(|| Value::Array(inputs.iter().map(|(k, v)| json!({"name": k, "value": v.to_tck()})).collect()));
+        // other spellings XML Schema has for the same values: xsd:integer / xsd:double numbers, 1 / 0 booleans
+        tck_flavour(&mut input, pu64(r, "fl"));
         let body = json!({"model": model_name(m), "invocable": decision, "input": input}).to_string();
         json_post("/tck/evaluate", body, Op::Echo(model_name(m), expected.clone(), true), format!("tck-echo {}", expected.class()))
       } else {
@@ -1834,6 +1836,36 @@ pub fn loopback_pass(seed: u64) -> ExtraPass {
   pass
 }
 
+/// Rewrites the simple values of a TCK input in place: flavour bit 0 - numbers that are integers are
+/// tagged `xsd:integer`, bit 1 - the other numbers `xsd:double`, bit 2 - booleans are spelt 1 / 0.
+fn tck_flavour(v: &mut Value, flavour: u64) {
+  if flavour == 0 {
+    return;
+  }
+  match v {
+    Value::Array(items) => items.iter_mut().for_each(|i| tck_flavour(i, flavour)),
+    Value::Object(map) => {
+      let ty = map.get("type").and_then(|t| t.as_str()).map(|t| t.to_string());
+      let text = map.get("text").and_then(|t| t.as_str()).map(|t| t.to_string());
+      if let (Some(ty), Some(text)) = (ty, text) {
+        if ty == "xsd:decimal" {
+          let integer = text.trim_start_matches('-').bytes().all(|b| b.is_ascii_digit());
+          if integer && flavour & 1 != 0 {
+            map.insert("type".into(), json!("xsd:integer"));
+          } else if !integer && flavour & 2 != 0 {
+            map.insert("type".into(), json!("xsd:double"));
+          }
+        } else if ty == "xsd:boolean" && flavour & 4 != 0 {
+          map.insert("text".into(), json!(if text == "true" { "1" } else { "0" }));
+        }
+        return;
+      }
+      map.values_mut().for_each(|i| tck_flavour(i, flavour));
+    }
+    _ => {}
+  }
+}
+
 const TEMPORALS: [(&str, &[&str]); 5] = [
   ("d", &["2021-03-28", "1999-12-31", "2020-02-29", "1970-01-01"]),
   ("t", &["10:20:30", "23:59:59", "00:00:00", "10:20:30Z", "10:20:30+02:00", "10:20:30.5"]),
@@ -1886,7 +1918,8 @@ fn gen_echo(rng: &mut Rng, m: String) -> Value {
   let number = |rng: &mut Rng| if tck { crate::jsonval::gen_number_exp(rng) } else { crate::jsonval::gen_number(rng) };
   let nums: Vec<String> = (0..n_nums).map(|_| number(rng)).collect();
   let n = number(rng);
-  json!({"kind": "echo", "m": m, "tck": tck, "dec": dec, "s": crate::jsonval::gen_string(rng), "n": n, "b": rng.chance(1, 2), "nums": nums.join(",")})
+  let fl = if tck && rng.chance(1, 3) { 1 + rng.below(7) } else { 0 };
+  json!({"kind": "echo", "m": m, "tck": tck, "dec": dec, "s": crate::jsonval::gen_string(rng), "n": n, "b": rng.chance(1, 2), "nums": nums.join(","), "fl": fl})
 }
 
 const DEF_KINDS: [&str; 5] = ["add", "replace", "remove", "clear", "deploy"];
